@@ -10,7 +10,7 @@
    attribute is undeclared).  `dtree`/`infoset_d` is the same for the printed
    form (start tags with the xmlns declarations nsdeclarations() emits). *)
 From SV Require Import Lib.Base C05.Model C05.RenderProofs C05.RefitProofs C05.NormProofs C05.PromoteProofs.
-From SV Require Import C05.Text C05.TextProofs.
+From SV Require Import C05.Text C05.TextProofs C05.History.
 
 (* ------------------------------------------------------------------ *)
 (* printing                                                            *)
@@ -180,6 +180,26 @@ Example wire_text_nonvacuous :
 Proof. repeat split. Qed.
 
 (* ------------------------------------------------------------------ *)
+(* a client over time: the request under a setting does not depend on   *)
+(* the settings served before (no option is frozen at first use)        *)
+(* ------------------------------------------------------------------ *)
+Theorem history_irrelevant : forall wfix env_q env_u h o d,
+  last (client_run wfix env_q env_u (h ++ [o])) d = client_send wfix env_q env_u o.
+Proof. exact history_irrelevant_l. Qed.
+Print Assumptions history_irrelevant.
+
+Theorem same_setting_same_request : forall wfix env_q env_u h1 h2 o d,
+  last (client_run wfix env_q env_u (h1 ++ [o])) d = last (client_run wfix env_q env_u (h2 ++ [o])) d.
+Proof. exact same_setting_same_request_l. Qed.
+Print Assumptions same_setting_same_request.
+
+(* a marshaller memoised at first use would break it *)
+Theorem memoised_marshaller_refuted : exists wfix env_q env_u h o d,
+  last (client_run_memo wfix env_q env_u (h ++ [o])) d <> client_send wfix env_q env_u o.
+Proof. exact memoised_marshaller_refuted_l. Qed.
+Print Assumptions memoised_marshaller_refuted.
+
+(* ------------------------------------------------------------------ *)
 (* non-vacuity: a typical envelope satisfies every guard               *)
 (* ------------------------------------------------------------------ *)
 (* <E:Envelope xmlns:E=ENV xmlns:xsi=XSI><E:Header><h:hd xmlns:h=H a="v"/></E:Header>
@@ -204,4 +224,33 @@ Example guards_nonvacuous :
                   (request_infoset true false true (rev ord) ex_env) = true /\
   oitree_eqb true (request_infoset true false true ord ex_env)
                   (request_infoset false false true ord ex_env) = true.
+Proof. vm_compute. repeat split. Qed.
+
+(* two SIBLING elements whose xsi:type values use the same local prefix ns1 for
+   two different namespaces (Typer.genprefix picks the prefix per node): the
+   envelope is inside the guards of normalize_promote_preserves_infoset, each
+   value is rewritten in its own element's scope and keeps its namespace
+   <E:Envelope ..><E:Header/><E:Body><t:op xmlns:t=T>
+      <t:a xmlns:xsi=XSI xmlns:ns1=U1 xsi:type="ns1:D1"/>
+      <t:b xmlns:xsi=XSI xmlns:ns1=U2 xsi:type="ns1:D2"/></t:op></E:Body></E:Envelope> *)
+Definition ex_siblings : pel :=
+  (PEl (Some 10) 11 None [(10, 12); (1, 4)] [] None
+     [PEl (Some 10) 13 None [(10, 12)] [] None [];
+      PEl (Some 10) 14 None [(10, 12)] [] None
+        [PEl (Some 15) 16 None [(15, 17)] [] None
+           [PEl (Some 15) 18 None [(15, 17); (1, 4); (1000001, 27)] [(Some 1, 8, AQ 1000001 28)] None [];
+            PEl (Some 15) 19 None [(15, 17); (1, 4); (1000001, 30)] [(Some 1, 8, AQ 1000001 31)] None []]]])%N.
+
+Example sibling_types_nonvacuous :
+  let ord := default_ord ex_siblings in
+  ord_covers ord ex_siblings = true /\ env_guard ord ex_siblings = true /\
+  env_guard (rev ord) ex_siblings = true /\
+  oitree_eqb true (infoset [] 0 (prefix_pass ord ex_siblings)) (infoset [] 0 ex_siblings) = true /\
+  oitree_eqb true (request_infoset true false true ord ex_siblings)
+                  (request_infoset false false true ord ex_siblings) = true /\
+  match infoset [] 0 (prefix_pass ord ex_siblings) with
+  | Some (IEl _ _ _ _ [_; IEl _ _ _ _ [IEl _ _ _ _ [IEl _ _ [(_, _, IQ u1 _)] _ _; IEl _ _ [(_, _, IQ u2 _)] _ _]]]) =>
+      u1 = 27%N /\ u2 = 30%N
+  | _ => False
+  end.
 Proof. vm_compute. repeat split. Qed.
